@@ -67,7 +67,7 @@ func init() {
 	register("C11", func(e *Env) {
 		renderPrelude()
 		e.perShard = 30
-		e.rep.Rule = "a recursive data graph (struct Node{Name; A, B []Node; P *Node; M map[string]Node}, depth 2, every Name spelling its own Go path) rooted at the context variable x (value) and px (pointer), plus decoy context variables named like the fields (A, B, P, M, Name); every path of <= 2 steps (exhaustive) and random paths of 3-4 steps over {.A[0] .A[1] .A[2](out of range) .A[i](variable index) .B[0] .P .M[\"k\"] .M[\"zz\"](missing) .M[km](variable key) .Zzz(unknown)} ending in .Name, used in an output tag, through let, and as a loop iterable; reference = the same navigation done in Go; oracle: a completed navigation must print exactly the spelled path, an impossible one must print nothing or fail - never another element's name; plus method calls on values/pointers/indexed elements of the T0/T1 family; distinct by path"
+		e.rep.Rule = "a recursive data graph (struct Node{Name; A, B []Node; P *Node; M map[string]Node}, depth 2, every Name spelling its own Go path) rooted at the context variable x (value) and px (pointer), plus decoy context variables named like the fields (A, B, P, M, Name); every path of <= 2 steps (exhaustive) and random paths of 3-4 steps over {.A[0] .A[1] .A[2](out of range) .A[i](variable index) .B[0] .P .M[\"k\"] .M[\"zz\"](missing) .M[km](variable key) .Zzz(unknown)} ending in .Name, used in an output tag, through let, and as a loop iterable; reference = the same navigation done in Go; oracle: a completed navigation must print exactly the spelled path, an impossible one must print nothing or fail - never another element's name; plus method calls on values/pointers/indexed elements of the T0/T1 family; plus slices / arrays / maps of pointers with nil elements (Go-only); distinct by path"
 		root := mkNode("x", 2)
 		binds := []Bind{{"x", root}, {"px", vPtr(mkNode("px", 2))}, {"i0", vInt(0)}, {"i1", vInt(1)}, {"km", vStr("k")},
 			{"A", vSlice("Node", mkNode("DECOY.A[0]", 1), mkNode("DECOY.A[1]", 1))}, {"B", vSlice("Node", mkNode("DECOY.B[0]", 1))}, {"P", vPtr(mkNode("DECOY.P", 1))},
@@ -173,6 +173,38 @@ func init() {
 					key = "c11-method-after-index"
 				}
 				e.Violate(key, fmt.Sprintf("%s: Go yields %q, the template rendered %q (%s %s)", t.src, t.want, o.Out, o.Class, firstLine(o.Msg)), map[string]interface{}{"case": c.Tmpl, "observed": o})
+			}
+		}
+		// containers of pointers with nil elements and maps with nil pointer values (Go-only data:
+		// decided by the real engine against Go navigation): a nil element cannot be navigated
+		// further - error or empty output, never a panic, never another element
+		{
+			a, b := &T0{"pps[0]"}, &T0{"pps[2]"}
+			extra := map[string]interface{}{
+				"pps": []*T0{a, nil, b}, "arr": [3]*T0{a, nil, b}, "pm": map[string]*T0{"a": a, "n": nil},
+				"nested": map[string]interface{}{"kids": []*T0{nil, b}}, "ii": 1,
+			}
+			for _, t := range []struct{ src, want string }{
+				{"pps[0].Name", "pps[0]"}, {"pps[2].Name", "pps[2]"}, {"pps[1].Name", ""}, {"pps[ii].Name", ""}, {"pps[1]", ""}, {"arr[1].Name", ""}, {"arr[2].Name", "pps[2]"},
+				{`pm["a"].Name`, "pps[0]"}, {`pm["n"].Name`, ""}, {`pm["zz"].Name`, ""}, {`nested["kids"][0].Name`, ""}, {`nested["kids"][1].Name`, "pps[2]"},
+				{`pps[1].Hello("x")`, ""}, {`pps[0].Hello("x")`, "hello x from pps[0]"},
+			} {
+				for _, form := range []string{"[<%= X %>]", "<% let q = X %>[<%= q %>]", "[<%= for (i, p) in pps { %><%= if (i == 1) { %><%= X %><% } %><% } %>]"} {
+					tm := strings.Replace(form, "X", t.src, 1)
+					o := runRenderExtra(RCase{Tmpl: tm, Binds: binds}, extra)
+					e.rep.Evaluations++
+					e.Count("nil-elements")
+					e.Distinct(tm)
+					rp := map[string]interface{}{"tmpl": tm, "observed": o}
+					switch {
+					case o.Class == "PANIC":
+						e.Violate("eval-panic@"+siteOf(o.Msg), fmt.Sprintf("Render panicked on %q: %s", tm, o.Msg), rp)
+					case o.Class == "OK" && o.Out != "["+template.HTMLEscapeString(t.want)+"]" && !(t.want != "" && strings.Contains(t.src, "].Hello")):
+						e.Violate(c11key(t.src, o, strings.Trim(o.Out, "[]")), fmt.Sprintf("%s: Go yields %q, the template rendered %q", tm, t.want, o.Out), rp)
+					case o.Class == "ERR" && t.want != "" && !strings.Contains(t.src, "].Hello"):
+						e.Violate("c11-navigation-fails", fmt.Sprintf("%s: Go yields %q, the template failed: %s", tm, t.want, firstLine(o.Msg)), rp)
+					}
+				}
 			}
 		}
 	})
